@@ -70,13 +70,20 @@ def write_if_changed(path, text):
 MUST_FEATURES = ["plain-result-after-method-level-int_result", "static-ref-return-consuming", "two-borrowed-children", "assoc-without-lifetime-bound-in-result", "skip_func", "extern-c-method", "vtbl_only", "int_result-alias", "self-return", "ret:reschild", "int_result-unit-ok"]
 
 
+def trait_name(k):
+    """every third trait is spelled with an upper-case second letter, so that byte order (the order
+    the generator uses for a group's vtable fields) and case-insensitive order disagree for some
+    pairs of mandatory traits (`TR4` < `Tr2` by bytes, `tr2` < `tr4` ignoring case)"""
+    return ("TR" if k % 3 == 1 else "Tr") + str(k)
+
+
 def batch_traits(rng, seed, n_traits):
     """the batch's trait definitions: n draws, then the last slots are redrawn (deterministically)
     until every feature of MUST_FEATURES occurs somewhere in the batch"""
     traits = []
     for k in range(n_traits):
         trng = random.Random(rng.getrandbits(64))
-        traits.append(gen.gen_trait(trng, f"Tr{k}", f"t{k}", tindex=k))
+        traits.append(gen.gen_trait(trng, trait_name(k), f"t{k}", tindex=k))
     if n_traits < 2 * len(MUST_FEATURES):
         return traits
     taken = set()
@@ -91,7 +98,7 @@ def batch_traits(rng, seed, n_traits):
             break
         for attempt in range(5000):
             trng = random.Random((seed * 7919 + slot) * 10000 + attempt)
-            t = gen.gen_trait(trng, f"Tr{slot}", f"t{slot}", tindex=slot)
+            t = gen.gen_trait(trng, trait_name(slot), f"t{slot}", tindex=slot)
             if f in t.features():
                 traits[slot] = t
                 taken.add(slot)
@@ -162,7 +169,7 @@ def make_batch(seed, n_traits, name, exclude=(), lite=()):
         for oi in range(nopt):
             if grng.random() < 0.45 or members[n_mand + oi][1].generic:
                 tn = members[n_mand + oi][1].name
-                aliases[oi] = (grng.choice(["Aa", "Zz", "Mm"]) + tn + "As")
+                aliases[oi] = (grng.choice(["Aa", "AB", "Zy", "ZZ", "Mm"]) + tn + "As")
         own_order = sorted(range(nopt), key=lambda i: members[n_mand + i][1].name)
         vis_order = sorted(range(nopt), key=lambda i: aliases.get(i, members[n_mand + i][1].name))
         if nopt >= 2 and own_order == vis_order and k % 2 == 0:
@@ -171,6 +178,12 @@ def make_batch(seed, n_traits, name, exclude=(), lite=()):
             by_own = sorted(range(nopt), key=lambda i: members[n_mand + i][1].name)
             aliases[by_own[0]] = "Zz" + members[n_mand + by_own[0]][1].name + "As"
             aliases[by_own[-1]] = "Aa" + members[n_mand + by_own[-1]][1].name + "As"
+        if nopt >= 2 and k % 2 == 1:
+            # the other groups with two or more optional members get a pair of aliases whose byte
+            # order (`AC..` < `Ab..`, the order of the vtable fields) is the reverse of their order
+            # ignoring case
+            aliases[0] = "Ab" + members[n_mand][1].name + "As"
+            aliases[1] = "AC" + members[n_mand + 1][1].name + "As"
         groups.append((f"g{k}", emit.Group(f"Gp{k}", members, n_mand, enabled, aliases)))
         if nopt >= 2:
             # the same group again with single-trait requests only
